@@ -463,3 +463,31 @@ def report_subst_tables(run, failed, unsupported):
     run.violation("tables:" + " ".join(f[0].split())[:100], "sympy_simplify substitution tables: obligation '%s' is no longer discharged (%s%s); %d obligation(s) failed" % (
         f[0], f[1], (": " + f[2]) if f[2] else "", len(failed)),
         {"obligation": f[0], "status": f[1], "solver_output": f[2], "replay_attempts": answers[:4]}, no_input=True)
+
+
+# ------------------------------------------------------------ carrying the Fisher matrix over to a variant (C05): tail of simplifier.convert_params
+def fisher_transfer(run):
+    """pyvc/matrixvc.py on the region `jinv = np.linalg.inv(j) ... return` of simplifier.convert_params, for k = 1, 2, 3 parameters with symbolic entries."""
+    import ast
+    from pyvc import matrixvc
+    rel = "generation/simplifier.py"
+    tree = ast.parse(open(run.src(rel)).read())
+    fn = [n for n in tree.body if isinstance(n, ast.FunctionDef) and n.name == "convert_params"]
+    fq = "esr/%s::convert_params [Fisher transfer, k <= 3]" % rel
+    if not fn:
+        run.downgrades.append({"function": fq, "reason": "simplifier.convert_params not found"})
+        return []
+    obs = matrixvc.obligations(fn[0])
+    if any(o[1] == "unsupported" for o in obs) or not obs:
+        run.downgrades.append({"function": fq, "reason": "region outside the matrix evaluator's subset: %s" % "; ".join("%s (%s)" % (o[0][:60], o[2]) for o in obs if o[1] == "unsupported")[:400]})
+        return []
+    run.add_function(fq, rel, note="region: from np.linalg.inv(j) to the return; straight-line numpy matrix code executed symbolically for k = 1, 2, 3 with fully symbolic "
+                                   "Jacobian and symmetric Fisher matrix (complete for each k; the bound is on k only); inv(j) as a matrix M with M j = j M = 1")
+    failed = []
+    for name, st, detail, secs in obs:
+        run.add_obligation("convert_params/fisher-transfer/" + name, fq, st, "z3-%s (QF_NRA)" % z3.get_version_string(), secs, name, detail=detail)
+        if st != "proved":
+            failed.append((fq, name + ((" -- counter-model: " + detail) if detail else ""), 0))
+    run.assume("Fisher transfer: proved for k <= 3 parameters only (symbolic entries); that the Fisher matrix of the variant is J^-T F J^-1 for the Jacobian J of the composed "
+               "parameter map is the change-of-variables rule for a Hessian at a stationary point (taken from the property statement); the Jacobian itself (sympy) is bounded only")
+    return failed
